@@ -331,6 +331,28 @@ func init() {
 		neg := tb.Neg(tb.ToReal(tb.ToInt(tb.Add(tb.Neg(t), half))))
 		return x.mkSym(types.Float64, tb.Ite(tb.Ge(t, tb.FloatC(0)), pos, neg))
 	}
+	// filepath.Ext(s): s = dir ++ base, base has no '/', dir is "" or ends in '/';
+	// base = stem ++ ext, ext is "" (base has no '.') or '.' followed by dot-free text.
+	// The fresh variables are functionally determined by s (definitional extension).
+	splitBase := func(fr *frame, sv value) (*smt.Term, *smt.Term) {
+		x, tb := fr.i.x, fr.i.x.tb
+		s := x.term(sv)
+		dir, base := x.fresh("dir", smt.Str), x.fresh("base", smt.Str)
+		x.assume(tb.And(tb.Eq(s, tb.Concat(dir, base)), tb.Not(tb.Contains(base, tb.StrC("/"))),
+			tb.Or(tb.Eq(dir, tb.StrC("")), tb.SuffixOf(tb.StrC("/"), dir))))
+		return dir, base
+	}
+	symModels["path/filepath.Ext"] = func(fr *frame, args []value) value {
+		x, tb := fr.i.x, fr.i.x.tb
+		_, base := splitBase(fr, args[0])
+		stem, ext := x.fresh("stem", smt.Str), x.fresh("ext", smt.Str)
+		dot := tb.StrC(".")
+		x.assume(tb.And(tb.Eq(base, tb.Concat(stem, ext)),
+			tb.Or(tb.And(tb.Eq(ext, tb.StrC("")), tb.Not(tb.Contains(base, dot))),
+				tb.And(tb.PrefixOf(dot, ext), tb.Not(tb.Contains(tb.Substr(ext, tb.IntC(1), tb.StrLen(ext)), dot))))))
+		x.stubs["path/filepath.Ext (symbolic model: last dot-suffix of the last '/'-separated element)"] = true
+		return x.mkSym(types.String, ext)
+	}
 	symModels["bytes.Equal"] = func(fr *frame, args []value) value {
 		x := fr.i.x
 		a, b := x.bytesTerm(args[0]), x.bytesTerm(args[1])
